@@ -3,8 +3,10 @@
 theorems      : coq/Props/C07.v (model of _split_expr_over_interface + interface loop of TerminalExpr.eval:
                 the four kernels are the four pieces; the pieces sum to the integrand for every integrand
                 bilinear in the restricted arguments; linear forms; several interfaces)
-correspondence: real TerminalExpr(form, domain) on generated DG forms over multi-patch domains; every kernel is
-                compared inside Coq (tequiv) with the model's kernel for the same target / tag
+correspondence: real TerminalExpr(form, domain) on generated DG forms over multi-patch domains (single and PRODUCT spaces:
+                2-3 scalar / vector functions per slot, several coupled (trial, test) pairs per face; restrictions of
+                compound expressions; components minus(F)[i], nn[i]); every kernel is compared inside Coq (tequiv) with
+                the model's kernel for the same target / tag
 oracle        : independent of the model: the implementation's kernels, read in the two-sided environment, are
                 the specification pieces of the independently lowered integrand and sum to it
                 (tequiv inside Coq; exact rational evaluation on explicit polynomials as the search oracle);
@@ -181,6 +183,10 @@ def gnum(p, q=1):
 NN = {"k": "nn"}
 
 
+def comp(x, i):
+    return {"k": "comp", "a": [x], "i": i}
+
+
 class Gen:
     def __init__(self, rng, tier):
         self.r, self.tier = rng, tier
@@ -213,7 +219,7 @@ class Gen:
         then restricted to the side of the argument), its square, constant, number"""
         r = self.r
         c = r.random()
-        if coeffn and c < 0.5:
+        if coeffn and c < 0.6:
             self.feat.add("coef-field")
             self.feat.add("R(field*..)")
             return fn(coeffn) if r.random() < 0.7 else {"k": "pow", "b": fn(coeffn), "e": 2}
@@ -275,6 +281,14 @@ class Gen:
             self.feat.add("restriction-of-derivative")
             return op("dot", self.R(op("grad", f), allow_avg=False), NN)
         c = r.random()
+        if c < 0.12:
+            # an explicit component of the restricted vector function, minus(F)[i] / plus(F)[i]
+            self.feat.add("R(F)[i]")
+            x = comp(self.Rs(f, side), r.randrange(self.dim))
+            if r.random() < 0.5:
+                self.feat.add("nn[i]")
+                x = mul(x, comp(NN, r.randrange(self.dim)))
+            return x
         if c < 0.6:
             self.feat.add("vec.nn")
             return op("dot", self.Rs(f, side) if side else self.R(f), NN)
@@ -308,6 +322,10 @@ class Gen:
         if r.random() < 0.08:
             self.feat.add("nn.nn")
             fs.append(op("dot", NN, NN))
+        if r.random() < 0.08:
+            # an explicit component of the normal vector
+            self.feat.add("nn[i]")
+            fs.append(comp(NN, r.randrange(dim)))
         if coeffn and side:
             self.feat.add("coef-field")
             if r.random() < 0.25:
@@ -407,7 +425,7 @@ def gen_case(rng, tier, idx):
         if form == "bilinear":
             trials = ["u"]
             funcs["u"] = {"vec": rng.random() < 0.35}
-    if rng.random() < 0.25:
+    if rng.random() < 0.3:
         funcs["f"] = {"vec": False}
     case = {"dim": dim, "npatch": npatch, "mapped": mapped, "conn": conn, "form": form, "funcs": funcs,
             "trials": trials, "tests": tests, "terms": [], "volume": "mass" if rng.random() < 0.2 else None,
@@ -455,7 +473,7 @@ def g_ops(g, acc=None):
     k = g["k"]
     if k == "op":
         acc[g["name"]] = acc.get(g["name"], 0) + 1
-    elif k in ("nn", "coord", "const"):
+    elif k in ("nn", "coord", "const", "comp", "pow"):
         acc[k] = acc.get(k, 0) + 1
     for a in g.get("a", []):
         g_ops(a, acc)
@@ -483,6 +501,10 @@ def has_normal(g):
     return g_has(g, lambda x: x["k"] == "nn" or (x["k"] == "op" and x["name"] == "Dn"))
 
 
+def has_component(g):
+    return g_has(g, lambda x: x["k"] == "comp")
+
+
 def has_coef_field(g):
     return g_has(g, lambda x: x["k"] == "fn" and x["name"] == "f")
 
@@ -499,6 +521,11 @@ def classify(case, r):
     expl = dict(expl, **((r or {}).get("explained_by") or {}))
     if expl.get("coefficient-side-blind"):
         return "cross-side-coefficient"
+    if err.get("stage") == "TerminalExpr" and err.get("kind") == "TypeError" and \
+            any(g_has(g, lambda x: x["k"] == "comp" and x["a"][0] == NN) for g in gs):
+        return "normal-component"             # repaired: the reversal of the normal rebuilt Indexed(-nn, i)
+    if any(g_has(g, lambda x: x["k"] == "comp" and x["a"][0] != NN) for g in gs) and not expl.get("compound-pushed-inward"):
+        return "restricted-component"         # repaired: minus(F)[i] was not nullified with minus(F)
     if expl.get("compound-pushed-inward"):
         # the same form with every restriction of a compound expression written out on the atoms is split correctly
         return "restriction-of-compound"
@@ -526,7 +553,8 @@ def shrink_candidates(case):
             subs += [add(*(e["a"][:i] + e["a"][i + 1:])) for i in range(len(e["a"]))]
         if e["k"] == "mul" and len(e["a"]) > 2:
             for i, a in enumerate(e["a"]):
-                if a["k"] in ("num", "const", "coord") or (a["k"] == "op" and a["name"] == "dot" and a["a"][0] == NN and a["a"][1] == NN):
+                if a["k"] in ("num", "const", "coord") or (a["k"] == "comp" and a["a"][0] == NN) or \
+                        (a["k"] == "op" and a["name"] == "dot" and a["a"][0] == NN and a["a"][1] == NN):
                     subs.append(mul(*(e["a"][:i] + e["a"][i + 1:])))
         for s in subs:
             terms = copy.deepcopy(case["terms"])
@@ -541,7 +569,7 @@ def shrink_candidates(case):
         c2 = copy.deepcopy(case)
         c2["dim"] = 2
         c2["conn"] = [[[p, min(a, 1), e] for p, a, e in c] for c in case["conn"]]
-        ok = not g_has({"k": "add", "a": [t["expr"] for t in case["terms"]]}, lambda x: x["k"] == "coord" and x["i"] > 1)
+        ok = not g_has({"k": "add", "a": [t["expr"] for t in case["terms"]]}, lambda x: x["k"] in ("coord", "comp") and x["i"] > 1)
         if ok:
             out.append(c2)
     if case.get("mapped"):
@@ -750,7 +778,7 @@ def main(run, replay=None):
 
     # ---- evidence
     distinct = set()
-    h_ops, h_if, h_args, h_dim, h_form, h_map, h_feat, h_terms = {}, {}, {}, {}, {}, {}, {}, {}
+    h_ops, h_if, h_args, h_dim, h_form, h_map, h_feat, h_terms, h_flags, h_pairs = {}, {}, {}, {}, {}, {}, {}, {}, {}, {}
     for c, r in zip(cases, results):
         if r is None or "crash" in r:
             continue
@@ -766,6 +794,16 @@ def main(run, replay=None):
         bump_h(h_terms, str(sum(len(t["expr"]["a"]) if t["expr"]["k"] == "add" else 1 for t in c["terms"])))
         for f in c.get("features", []):
             bump_h(h_feat, f)
+        for f in (r.get("flags") or []):
+            bump_h(h_flags, f)
+        if r.get("compound"):
+            bump_h(h_flags, "input-with-compound-restriction")
+        if len(c["tests"]) > 1 and "err" not in r:
+            # product spaces: how many scalar (test, trial) blocks of the accumulated face kernels are non-zero
+            for k in r.get("kernels", []):
+                if k["type"] == "bnd":
+                    nz = sum(1 for row in k["mat"] for x in row if not (x["k"] == "num" and x["p"] == 0))
+                    bump_h(h_pairs, str(nz))
         if "err" not in r and len(r.get("kernels", [])) >= 2:
             distinct.add(canon_hash([c["dim"], c["conn"], c["form"], c["terms"], c["funcs"], c.get("mapped")]))
     cov = {
@@ -775,9 +813,11 @@ def main(run, replay=None):
                 "kernels were produced; distinct = canonical JSON of (dimension, connectivity, form kind, integrands, functions, mapped)",
         "traces_validated_against_impl": stats["model_agrees"],
         "decisions": stats,
-        "model_variant": "Model/InterfaceM.v the_code = cfg_repaired (sympde after dace187 / 6d0684b / 4ecfb40)",
+        "model_variant": "Model/InterfaceM.v the_code = cfg_repaired (sympde after dace187 / 6d0684b / 4ecfb40 / b51ca38: the "
+                         "restriction of ANY expression reaches the atoms, [restrict] is a homomorphism)",
         "operators": h_ops, "interfaces_per_domain": h_if, "arguments": h_args, "dimension": h_dim, "form_kind": h_form,
-        "patches": h_map, "summands_per_case": h_terms, "generator_features": h_feat,
+        "patches": h_map, "summands_per_case": h_terms, "generator_features": h_feat, "kernel_flags": h_flags,
+        "nonzero_blocks_per_face_kernel_product_spaces": h_pairs,
         "samples": [{k: v for k, v in c.items() if k != "features"} for c in cases[:2]],
         "exhaustive": False,
         "trusted_base": ["tools/impl/C07_impl.py (builder, kernel serialiser, the independent lowering `Lower` of dot/grad/div/Dn/"
@@ -794,8 +834,12 @@ def main(run, replay=None):
         "sympde tree by the definitions of the operators (not by the code under test).",
         "The model is scalar: tensor operators are expanded in components by the harness; kernels that are matrices are compared "
         "through the sum of their entries plus the entry rule of _to_matrix_form.",
-        "Inputs stay inside the documented domain: jump/avg/minus/plus of arguments, of Dn(argument), of constant multiples; grad/div "
-        "of restricted arguments; coordinates and constants as outer coefficients; explicitly restricted coefficient fields.",
+        "Inputs stay inside the documented domain: jump/avg/minus/plus of arguments, of Dn(argument), of constant multiples, and of "
+        "COMPOUND expressions (dot(grad(w), nn), dot(F, nn), div(grad(w)), c*w with c a coordinate / constant / free coefficient field, "
+        "f**2); grad/div of restricted arguments; coordinates and constants as outer coefficients; explicitly restricted coefficient "
+        "fields; product spaces with 2 or 3 scalar / vector functions per slot and up to 4 (quick) / 6 (thorough) coupled pairs.",
+        "A restricted coordinate minus(x) / plus(x) in an interface kernel is read as the coordinate x (one position per point of "
+        "the interface); counted in coverage.kernel_flags['restricted-coordinate'].",
         "tequiv=false is 'not proved': such cases are decided by the exact-rational oracle and counted as checker_incomplete.",
     ]
     return run.finish(cov, assumptions)
